@@ -59,10 +59,10 @@ Dims == [
   qeHdr       |-> <<"ok", "missing", "duplicated", "empty", "swapped", "threeCerts">>,
   qeMeta      |-> <<"ok", "wrongId", "wrongVersion", "noLevels", "levelsOmitted", "memberMissing">>,
   \* signed content (C04, C07; refined in TcbLevels.tla)
-  tcbContent |-> <<"ok", "laterMatch", "fmspcUpper", "fmspc", "pceid", "mrsigner", "attrs",
+  tcbContent |-> <<"ok", "laterMatch", "laterMatchTdx", "laterMatchPce", "fmspcUpper", "fmspc", "pceid", "mrsigner", "attrs",
                    "outOfDate", "revoked", "swHardening", "configNeeded", "noLevel">>,
   modBranch  |-> <<"none", "modOk", "modOutOfDate", "modMissing", "modNoLevel", "modOmitted">>,
-  qeContent  |-> <<"ok", "laterMatch", "maskedDiff", "misc", "miscHigh", "attrs", "mrsigner", "prodid",
+  qeContent  |-> <<"ok", "laterMatch", "maskedDiff", "maskZero", "valueOutsideMask", "misc", "miscHigh", "attrs", "mrsigner", "prodid",
                    "outOfDate", "revoked", "swHardening", "noLevel">>,
   \* revocation (C05)
   pckCrlRev     |-> <<"none", "nearMiss", "many", "leaf", "leafFirst", "leafAmongMany">>,
@@ -164,8 +164,8 @@ DpSeq(w) == CASE w.rootCrlDps = "ok" -> <<"ok">>
               [] w.rootCrlDps = "errorError" -> <<"error", "error">>
 
 \* (the TCB Info recorded in the repository does not contain a level matching the sample quote's platform: "no matching TCB level")
-GoodTcb(w) == w.tcbContent \in {"ok", "laterMatch", "fmspcUpper"} /\ w.modBranch \in {"none", "modOk"} /\ w.src = "gen"
-GoodQe(w)  == w.qeContent \in {"ok", "laterMatch", "maskedDiff"}
+GoodTcb(w) == w.tcbContent \in {"ok", "laterMatch", "laterMatchTdx", "laterMatchPce", "fmspcUpper"} /\ w.modBranch \in {"none", "modOk"} /\ w.src = "gen"
+GoodQe(w)  == w.qeContent \in {"ok", "laterMatch", "maskedDiff", "maskZero"}
 
 (* ---------------------------------------------------------------------------------- *)
 (* The properties, declaratively: what an acceptance implies (soundness), which worlds  *)
